@@ -83,7 +83,9 @@ def run(ctx):
             key["server"], key["shape"], ",".join(sorted(set(where))), rec.get("size"),
             "the server process exited: " + rec["obs"]["panic"] if not rec["obs"]["alive"] else
             "a request was not answered: %s" % rec["obs"]["responses"]))
-    drift = len(tv.tagged("DRIFT"))
+    drift = {}
+    for b in tv.tagged("DRIFT"):
+        drift[b["monitor"]] = drift.get(b["monitor"], 0) + 1
     sigs = set()
     for x in recs:
         sigs.add((x["server"], shape_name(x["sh"]), x["nb"],
@@ -99,8 +101,8 @@ def run(ctx):
     ctx.set("child_restarts", sum(m.get("childCrashes", 0) for m in metas))
     ctx.set("drift_events", drift)
     ctx.set("exhaustive", ctx.thorough)
-    if drift:
-        ctx.note("%d foreign files were served as data (DRIFT, not a verdict)" % drift)
+    for k, n in sorted(drift.items()):
+        ctx.note("%d observations differ from layer 1 of RecCorrupt.tla (%s): DRIFT, not a verdict" % (n, k))
     ctx.sample({"shape": cases[len(cases) // 3]})
     ctx.sample({"observation": recs[len(recs) // 3]})
     ctx.sample({"observation": recs[-1]})
